@@ -221,4 +221,31 @@ theorem proto_counter_fixed :
     ∧ (sysvProto sysvLay none [l, l, l, l, l, l, l, sd]).2.getLast? = some (.regs [.sse]) := by
   decide +kernel
 
+/-- `enum_base_meets_gcc`: for every representable range of enumerators (least ≤ 0 ≤ greatest, as
+c2mir accumulates them) the enumerated type has the size the platform compiler gives it — 4 bytes
+exactly when all values fit `int` or all fit `unsigned int` — and, when 4 bytes wide, the same
+signedness (`unsigned int` iff there is no negative enumerator). -/
+theorem enum_base_meets_gcc (mn mx : Int) (h0 : mn ≤ 0) (h1 : 0 ≤ mx)
+    (hmn : -9223372036854775808 ≤ mn) (hmx : mx ≤ 18446744073709551615)
+    (hboth : mn < 0 → mx ≤ 9223372036854775807) :
+    (c2mEnumBase mn mx).size = (gccEnumBase mn mx).size
+    ∧ ((gccEnumBase mn mx).size = 4 → c2mEnumBase mn mx = gccEnumBase mn mx) :=
+  enumBase_size mn mx h0 h1 hmn hmx hboth
+
+/-- the boundaries: `enum {A = -1, B = INT_MAX}` is an `int`, `enum {B = INT_MAX + 1}` and
+`enum {B = UINT_MAX}` are `unsigned int`, one more needs 8 bytes -/
+example : c2mEnumBase (-1) 2147483647 = .int ∧ c2mEnumBase (-1) 2147483648 = .long
+    ∧ c2mEnumBase 0 2147483648 = .uint ∧ c2mEnumBase 0 4294967295 = .uint
+    ∧ (c2mEnumBase 0 4294967296).size = 8 ∧ c2mEnumBase (-2147483648) 0 = .int
+    ∧ c2mEnumBase (-2147483649) 0 = .long := by decide
+
+/-- `x87_scalar_takes_no_register`: a `long double` scalar parameter goes to the stack and consumes
+neither a general nor an SSE register, in c2mir (`target_add_arg_proto` / `target_add_call_arg_op`:
+`else if (type != MIR_T_LD) n_iregs++`) as in the psABI -/
+theorem x87_scalar_takes_no_register (ai : ArgInfo) (av : Avail) :
+    c2mArg ai (.sc .ldouble) = (.stack, ai) ∧ sysvArg sysvLay av (.sc .ldouble) = (.stack, av) := by
+  constructor
+  · rw [c2mArg_sc]; rfl
+  · rfl
+
 end MirVerif.C08
